@@ -13,7 +13,8 @@ open PyGql PyGql.Depth
   answer   {"acyclic":bool,"fuel":n,"spec":[depth per op],
             "rule":[[flagged op indices] | "err:<kind>"  per grid entry],
             "orig":[same for the model of the unchanged rule],
-            "paths":[per op, per direct Field child, per maxdepth: [[path components]] | "err:<kind>"]}
+            "paths":[per op, per direct Field child, per maxdepth: [[path components]] | "err:<kind>"],
+            "pathsOrig": the same for `selected_fields` before C19-Q1sf.patch}
 -/
 
 namespace Driver.C19
@@ -73,7 +74,11 @@ def handle (j : J) : J :=
       ("orig", .arr (grid.map fun (f, l) => resJ (ruleOrig fuel l f doc vars))),
       ("paths", .arr (doc.ops.map fun op => .arr (op.sels.filterMap fun s =>
         match s with
-        | .field _ _ _ sub => some (.arr (maxdepths.map fun md => pathsJ (selectedFields fuel sub doc.frags vars md [])))
+        | .field _ _ _ sub => some (.arr (maxdepths.map fun md => pathsJ (selectedFields fuel sub doc.frags vars md (fun _ => true) [])))
+        | _ => none))),
+      ("pathsOrig", .arr (doc.ops.map fun op => .arr (op.sels.filterMap fun s =>
+        match s with
+        | .field _ _ _ sub => some (.arr (maxdepths.map fun md => pathsJ (selectedFieldsOrig fuel sub doc.frags vars md [])))
         | _ => none)))]
   | _ => .obj [("error", .str "bad-op")]
 
